@@ -97,7 +97,7 @@ the spec: enabled candidate type and network type (empty list = all), never a si
 IPv4-compatible address, link-local only behind the mDNS name, mDNS name iff gather mode, and for
 sockets the agent opens itself: accepted interface and address, port inside the range. -/
 theorem C18_sound (cfg : Config) (ifs : List Iface) (hq : cfg.quirks = []) (hwf : realAddrs cfg ifs = true)
-    (hpin : pinnedExtOk cfg = true) (u : GUnit)
+    (u : GUnit)
     (hu : u ∈ allUnits cfg ifs) (ci m : Nat)
     (hp : publishable cfg (unitCand cfg u ci m) = true) (hh : (unitCand cfg u ci m).hidden = false) :
     candViolation cfg ifs (unitCand cfg u ci m) = none := by
@@ -122,7 +122,7 @@ theorem C18_sound (cfg : Config) (ifs : List Iface) (hq : cfg.quirks = []) (hwf 
           have hk : a.cls.isLinkLocal6 = false := by simpa [unitCand, hmd'] using hh
           have hnm : (a.cls == AddrClass.nm) = false := by
             simp only [realAddrs, hmux, Option.getD_some, Bool.and_eq_true, List.all_eq_true] at hwf
-            simpa using hwf.2 a hamem
+            simpa using hwf.1.2 a hamem
           simp [candViolation, unitCand, hmd', hT, hne, hex, hk, hmux, hnm]
       · -- interface table
         obtain ⟨a, hl, hb, _, _, h⟩ := (mem_hostIfaceUnits hq).1 hu
@@ -134,7 +134,7 @@ theorem C18_sound (cfg : Config) (ifs : List Iface) (hq : cfg.quirks = []) (hwf 
         have hnm : (bind.cls == AddrClass.nm) = false := by
           obtain ⟨i, hi, _, ha, _⟩ := hl
           simp only [realAddrs, Bool.and_eq_true, List.all_eq_true] at hwf
-          simpa using hwf.1 i hi bind ha
+          simpa using hwf.1.1 i hi bind ha
         rcases h with ⟨rfl, rfl, hen, hmux⟩ | ⟨rfl, rfl, hen, hmux⟩
         · have hne := netEnabled_of_configured hen
           have htm : cfg.tcpMux.isSome = true := by
@@ -200,7 +200,7 @@ theorem C18_sound (cfg : Config) (ifs : List Iface) (hq : cfg.quirks = []) (hwf 
             have hex := supported_not_excluded (local_supported hl)
             obtain ⟨i, hi, _, ha, _⟩ := hl
             simp only [realAddrs, Bool.and_eq_true, List.all_eq_true] at hwf
-            exact ⟨by simp [hex], by simpa using hwf.1 i hi bind ha⟩
+            exact ⟨by simp [hex], by simpa using hwf.1.1 i hi bind ha⟩
           · subst hb; cases net.is6 <;> simp [unspec, excludedClass]
         have hpub := hp
         simp only [publishable, unitCand, Bool.and_eq_true, Bool.or_eq_true, Bool.not_eq_true', bne_iff_ne, ne_eq,
@@ -208,8 +208,14 @@ theorem C18_sound (cfg : Config) (ifs : List Iface) (hq : cfg.quirks = []) (hwf 
         -- the network type of the candidate (family of the mapped address) is enabled: the `netType` test
         have hnet : netEnabled cfg (NetType.ofTransport false
             ((((srflxMappedAddrs cfg bind).getD [])[ci]?).getD bind).cls.is6) = true :=
-          netEnabled_of_configured hpub.2
-        have hk := hpub.1.2
+          netEnabled_of_configured hpub.1.2
+        have hk := hpub.1.1.2
+        -- an IPv6 mapped address is a supported one: the `supported6` test
+        have hsup : ((((srflxMappedAddrs cfg bind).getD [])[ci]?).getD bind).cls.is6 = true →
+            ((((srflxMappedAddrs cfg bind).getD [])[ci]?).getD bind).cls.supported6 = true := by
+          intro h6; rcases hpub.2 with h | h
+          · simp [h6] at h
+          · exact h
         have haddr : ∀ a : Addr, a = (((srflxMappedAddrs cfg bind).getD [])[ci]?).getD bind →
             (excludedClass a.cls && a.cls != AddrClass.u6 && a.cls != AddrClass.l6) = false
               ∧ (a.cls == AddrClass.nm) = false := by
@@ -219,10 +225,11 @@ theorem C18_sound (cfg : Config) (ifs : List Iface) (hq : cfg.quirks = []) (hwf 
             exact hbind
           · rw [← ha] at h
             exact by simp [h.1, excludedClass]
-          · rw [← ha] at hmem
-            have := hpin
-            simp only [pinnedExtOk, hpe, List.all_eq_true, Bool.or_eq_true, beq_iff_eq] at this
-            rcases this a hmem with (hc | hc) | hc <;> simp [hc, excludedClass]
+          · rw [← ha] at hmem hsup
+            have hex := supported_not_excluded hsup
+            have hw := hwf
+            simp only [realAddrs, hpe, Option.map_some, Option.getD_some, Bool.and_eq_true, List.all_eq_true] at hw
+            exact ⟨by simp [hex], by simpa using hw.2 a hmem⟩
         obtain ⟨hex, hnm⟩ := haddr _ rfl
         simp [candViolation, unitCand, hT, hnet, hex, hnm, hk, ownPortFlag_ne_M, hbase, portOk_own]
     · simp at hu
@@ -259,14 +266,13 @@ operation sequence on a fresh agent and every further operation: every candidate
 `GetLocalCandidates` or delivers to `OnCandidate` passes the spec's `candViolation` — i.e. every trace
 the model can produce passes the soundness part of the monitor that is also run on the implementation. -/
 theorem C18_sound_reachable (cfg : Config) (ifs : List Iface) (hq : cfg.quirks = []) (hwf : realAddrs cfg ifs = true)
-    (hpin : pinnedExtOk cfg = true)
     (s0 : MState) (h0 : newAgent cfg ifs = .ok s0) (ops : List Op) (op : Op) :
     ∀ c ∈ (observe (step (runOps s0 ops) op).1).cands ++ (observe (step (runOps s0 ops) op).1).evs,
       candViolation cfg ifs c.1 = none := by
   have hp : Prov cfg ifs (step (runOps s0 ops) op).1 := step_prov (runOps_prov ops (prov_init cfg ifs s0 h0)) op
   have sound : ∀ d, FromUnit cfg ifs d → d.hidden = false → candViolation cfg ifs d = none := by
     rintro d ⟨u, hu, ci, m, rfl, hpub⟩ hh
-    exact C18_sound cfg ifs hq hwf hpin u hu ci m hpub hh
+    exact C18_sound cfg ifs hq hwf u hu ci m hpub hh
   intro c hc
   simp only [observe, List.mem_append] at hc
   rcases hc with hc | hc
@@ -567,10 +573,24 @@ example : candViolation exCfg exIfs { ty := .host, net := .udp6, addr := ⟨.g6,
 /-- G1 in the model: with the quirk the unit exists, without it it does not -/
 example : ({ kind := .hostUdp, net := .udp6, bind := ⟨.g6, 1⟩ } : GUnit) ∈ allUnits { exCfg with quirks := [1] } exIfs
     ∧ ({ kind := .hostUdp, net := .udp6, bind := ⟨.g6, 1⟩ } : GUnit) ∉ allUnits exCfg exIfs := by decide
-/-- pinned srflx rules (external list of 1–3 addresses, mixed families, a location-tracked one anywhere)
-satisfy the class hypothesis; a site-local external does not (finding candidate C18-G7) -/
-example : pinnedExtOk { srflxPinned := some (true, [⟨.k6, 1⟩, ⟨.x4, 80⟩, ⟨.x6, 80⟩]) } = true := by decide
-example : pinnedExtOk { srflxPinned := some (true, [⟨.s6, 1⟩]) } = false := by decide
+/-- regression for the former excluded point C18-G7 (repaired): a pinned rule whose externals are site-local
+(`fec0::1`), IPv4-compatible (`::10.1.0.1`) and a usable IPv4 address.  The first two would be rejected by the
+spec, are not publishable (`supported6` test), and the agent model publishes only the third and has closed the
+two sockets it opened for them (3 opens, 2 closes; the udp6 unit's unmatched wildcard `::` is turned away by the
+same test: 1 more open and close) -/
+def g7Cfg : Config := { candTypes := [.srflx], srflxPinned := some (true, [⟨.s6, 1⟩, ⟨.c6, 1⟩, ⟨.x4, 80⟩]) }
+def g7Ifs : List Iface := [{ name := 0, up := true, loopback := false, addrs := [⟨.g4, 1⟩] }]
+
+example : candViolation g7Cfg g7Ifs (unitCand g7Cfg { kind := .srflxMapped, net := .udp4, bind := unspec false, n := 3 } 0 0)
+    = some "site-local or IPv4-compatible IPv6 address published" := by decide
+example : publishable g7Cfg (unitCand g7Cfg { kind := .srflxMapped, net := .udp4, bind := unspec false, n := 3 } 0 0) = false
+    ∧ publishable g7Cfg (unitCand g7Cfg { kind := .srflxMapped, net := .udp4, bind := unspec false, n := 3 } 1 0) = false
+    ∧ publishable g7Cfg (unitCand g7Cfg { kind := .srflxMapped, net := .udp4, bind := unspec false, n := 3 } 2 0) = true := by
+  decide
+example : (match newAgent g7Cfg g7Ifs with
+    | .ok s => let s' := (step s .gather).1
+               (s'.cands.map (fun c => (c.d.net, c.d.addr)), s'.opens, s'.closes, s'.liveRes.length)
+    | .error _ => ([], 9, 9, 9)) = ([(NetType.udp4, ⟨.x4, 80⟩)], 4, 3, 1) := by decide
 
 /-- regression for the former excluded point (C18-G6, repaired): only udp4 enabled, pinned rule
 `0.0.0.0 → [2001:db8:ffff::50]`.  The candidate would be rejected by the spec … -/
@@ -587,8 +607,8 @@ example : (match newAgent g6Cfg g6Ifs with
     | .ok s => let s' := (step s .gather).1
                (s'.cands.length, s'.evs.length, s'.opens, s'.closes, s'.liveRes.length, s'.cyc.gs)
     | .error _ => (9, 9, 9, 9, 9, Cycle.GS.new)) = (0, 0, 1, 1, 0, Cycle.GS.complete) := by decide
-/-- … and that path of the program is balanced: listen, addresses, filter, NewCandidate ok, network type refused -/
-example : (srflxMappedProg 1).run [.ok, .ok, .ok, .ok, .fail] {} = some { slots := [.released], misuse := false } := by
+/-- … and that path of the program is balanced: listen, addresses, location filter, IPv6 class test, NewCandidate ok, network type refused -/
+example : (srflxMappedProg 1).run [.ok, .ok, .ok, .ok, .ok, .fail] {} = some { slots := [.released], misuse := false } := by
   decide
 example : IceProofs.GatherCyc.quiet {} [.gather, .start 0, .addCheck 0, .addHandoff 0, .complete 0, .restart, .gather] = true := by
   decide
